@@ -233,6 +233,19 @@ Theorem C04_dup_invariant_refuted_flat_key :
 Proof. exact dup_invariant_refuted_flat_key. Qed.
 Print Assumptions C04_dup_invariant_refuted_flat_key.
 
+(* ... and so does a key that normalises VALUES (here: ignores the character "0", the effect of
+   zero-padding digit runs): Duration/3.5 s and Duration/3.05 s get one key, and the look-alike
+   sibling separates two differently written copies.  The key of the code as it is reports both. *)
+Theorem C04_dup_invariant_refuted_value_normalising_key :
+  PermForest w_zero_1 w_zero_2 /\ forallb wft w_zero_1 = true /\
+  zerokey (sv_k zerokey (G [D35; G [Red]])) = zerokey (sv_k zerokey (G [D305; G [Red]])) /\
+  dup_p Fx (VL (sorted_view_k zerokey w_zero_1)) = [] /\
+  dup_p Fx (VL (sorted_view_k zerokey w_zero_2)) = [K_TAG_REPEATED_GROUP] /\
+  check_for_duplicate_groups Fx w_zero_1 = Ok [K_TAG_REPEATED_GROUP] /\
+  check_for_duplicate_groups Fx w_zero_2 = Ok [K_TAG_REPEATED_GROUP].
+Proof. exact dup_invariant_refuted_value_normalising_key. Qed.
+Print Assumptions C04_dup_invariant_refuted_value_normalising_key.
+
 (* the model of list.sort is a stable sort *)
 Theorem C04_sort_is_stable_sort : forall (l : list (str * view)),
   Permutation (sort_k l) l /\
